@@ -38,6 +38,7 @@ THEOREMS = [
     "Config.tnodeItem_spec", "Config.toml_bool_flag", "Config.composite_ini_first", "Config.composite_toml_first",
     "Config.composite_fallback", "Config.compositeOrder_spec", "Config.makeHtml_spec", "Config.sourceTemplate_spec",
     "Config.finalSourcepath_spec", "Config.sidebarOk_spec",
+    "Config.cluster_not_already_on", "Config.default_section_leaks", "Config.sectionItems_spec",
 ]
 PARTIAL: dict = {}     # every property statement is at full strength for the code at /repo HEAD; `…_old_…` are about earlier code
 RULE = ("(a) exhaustive: every string of length <=3 (quick) / <=4 (thorough) over {a, space, \", ', \\, #, ;, =, %, [, ], newline, "
@@ -68,7 +69,12 @@ RULE = ("(a) exhaustive: every string of length <=3 (quick) / <=4 (thorough) ove
         "TomlConfigParser.parse on ~400 generated TOML documents (tool/pydoctor tables present, empty, scalar, shadowed); the real "
         "CompositeConfigParser over stub parsers for every parser list x outcome x 18 stream names (504 cases); "
         "Options.from_namespace (make-html default, view-source template for 17 bases x 3 explicit templates, verbosity, sidebar "
-        "depths, sourcepath order); multi-file merges now include an explicit --config file.")
+        "depths, sourcepath order); multi-file merges now include an explicit --config file. The corpus also holds: one-item-per-line "
+        "lists for the five repeatable options with each of VT FF FS GS RS NEL U+2028 U+2029 in the middle of an item in setup.cfg "
+        "and pydoctor.ini (80 files; CR and the same characters are in the value-level INI stream), the reviewed edge cases as open "
+        "findings (clustered -vv/-vq, the value `--`, bad count/flag values, key case, TOML boolean on a string option) and as "
+        "pinned behaviours (comment/indentation handling inside triple-quoted INI values, config/help/version keys, [DEFAULT], "
+        "one-line quotes over two lines, unquoted [..] x [..], verbose = -1).")
 ASSUMPTIONS = [
     "configargparse, configparser, toml and argparse are parameters of the model (DESIGN 4.4): their behaviour is "
     "transcribed (merge order, already_on_command_line, convert_item_to_command_line_arg, str.strip, "
@@ -91,6 +97,8 @@ ASSUMPTIONS = [
     "str() of floats, dates, nested arrays and tables is `unmodelled`; csv.reader is transcribed for one-line section names",
     "parse_path / findClassFromDottedName / parse_privacy_tuple (the Options converters) are not modelled: they receive the same "
     "text from a file and from the command line (file_eq_cli) and are compared as black boxes through Options equality",
+    "`[DEFAULT]` entries are handed to every INI section by configparser (modelled: sectionItems); INI keys are lower-cased by "
+    "configparser before pydoctor sees them (the model receives them as configparser returns them)",
     "abbreviated long options and clustered short options (--proj, -vv) are not seen by configargparse's "
     "already_on_command_line; the model covers exact option strings; abbreviations are probed with the direct oracle only",
 ]
@@ -108,6 +116,13 @@ SIG_INI_AS_TOML = "pydoctor.ini-read-as-toml:quoted-value-differs"
 SIG_TOML_LIB = "toml-quoted-value:leading-escaped-quote"
 SIG_ABBREV = "cli-abbreviation:file-not-overridden"
 SIG_CRASH = "config-file:uncaught-exception"
+SIG_CLUSTER = "cli-clustered-short-count:file-count-added"
+SIG_DDASH = "string-value:double-dash-lost"
+SIG_BADCOUNT = "bad-count-or-flag-value:traceback"
+SIG_KEYCASE = "key-case:ini-applies-toml-warns"
+SIG_TOMLBOOL = "toml-bool-on-string-option:capitalised"
+# what str.splitlines() breaks at besides \n and \r (a text file does not): VT FF FS GS RS NEL LS PS
+LINE_BOUNDARIES = ["\x0b", "\x0c", "\x1c", "\x1d", "\x1e", "\x85", "\u2028", "\u2029"]
 SIG_MAXAGE = "intersphinx-cache-max-age:not-checked-at-parse-time"
 MAXAGE_GOOD = ["1d", "3h", "0s", "59m", "2w", "1w"]
 MAXAGE_BAD = ["1x", "x", "d", "1", "1.5d", "-1d", "1 d", "1dd", "99999999999999999999w", "é"]
@@ -441,7 +456,10 @@ def stream_ini_values(ctx: Ctx) -> None:
         extra.append("[" + py_quote("1d", s) + ", " + py_quote("1s", s + "x") + "]")
         extra.append("[" + py_quote("3s", s + "y") + ",\n" + py_quote("1d", s) + ",]")
         extra.append("[" + s + "]")
-    pool = ["a", "b", " ", "'", '"', "\\", "%", "%%", "%(", "(", ")", "s", "[", "]", ",", "\n", "#", "1", "x", "=", ":"]
+    # one item per line with every str.splitlines() boundary (and CR) in the middle of an item: only \n separates items
+    for b in LINE_BOUNDARIES + ["\r"]:
+        extra += [f"a{b}b", f"a{b}b\nc", f"x\na{b}b", f"x\na{b}b\ny{b}{b}z", f"'q{b}'\nr", f"{b}lead\ntrail{b}"]
+    pool = ["a", "b", " ", "'", '"', "\\", "%", "%%", "%(", "(", ")", "s", "[", "]", ",", "\n", "\n", "#", "1", "x", "=", ":"] + LINE_BOUNDARIES + ["\r"]
     for _ in range(2000 if ctx.quick else 30000):
         extra.append("".join(ctx.rng.choice(pool) for _ in range(ctx.rng.randint(1, 9))))
     values = list(dict.fromkeys(values + extra))
@@ -584,6 +602,9 @@ def stream_toml_and_sections(ctx: Ctx) -> None:
     vpool = ["x", "'q'", '"100%%"', "a\n    b", "[\"l\"]", "", "%"]
     for _ in range(300 if ctx.quick else 3000):
         present = ctx.rng.sample(ininames, ctx.rng.randint(0, 4))
+        if ctx.rng.random() < 0.4:      # configparser hands the [DEFAULT] entries to every section (sectionItems)
+            present.insert(ctx.rng.randint(0, len(present)), "DEFAULT")
+            ctx.count("ini-sections:with-[DEFAULT]")
         text, secs = "", []
         for sec in present:
             kvs = [(ctx.rng.choice(["k0", "k1", "k2"]), ctx.rng.choice(vpool)) for _ in range(ctx.rng.randint(0, 3))]
@@ -773,10 +794,10 @@ def _named(stream: io.StringIO, name: str) -> io.StringIO:
 # ------------------------------------------------------------------ stream (c): every option
 
 FREE_TEXT = ["x", "a b", "it's", 'say "hi"', "a\\b", "#x;y=z", "100%", "[x]", " lead", "trail ", "-dash", "é☃", "a,b", "true",
-             "'q'", "k=v", "--x", "a:b", "${x}", "C:\\dir", "\ttab", "x" * 60]
+             "'q'", "k=v", "--x", "a:b", "${x}", "C:\\dir", "\ttab", "x" * 60, "a\x0cb", "x\u2028y", "n\x85l"]
 INTS = ["0", "1", "5", "12", "-1", "x", "1.5", "007"]
-PATHS = ["sub", "./sub/x", "/abs/p", "a b", "sub/../sub", "~/h", "é", "."]
-PRIV = ["PUBLIC:a.b", "hidden:x*", "PRIVATE:m.[ab]", "HIDDEN:a:b", "bad", "PUBLIC:", "Private:pkg.**"]
+PATHS = ["sub", "./sub/x", "/abs/p", "a b", "sub/../sub", "~/h", "é", ".", "sub/f\x0cf", "sub/l\u2029s"]
+PRIV = ["PUBLIC:a.b", "hidden:x*", "PRIVATE:m.[ab]", "HIDDEN:a:b", "bad", "PUBLIC:", "Private:pkg.**", "PUBLIC:v\x0bt", "HIDDEN:g\x1ds"]
 CLASSES = {"--system-class": ["pydoctor.model.System", "no.such.Class", "pydoctor.model.Class"],
            "--html-writer": ["pydoctor.templatewriter.TemplateWriter", "no.such.Writer", "pydoctor.model.System"]}
 FLAGVALS = ["true", "false", "yes", "no", "on", "off", "1", "0", "True", "FALSE", "maybe", "2"]
@@ -1676,6 +1697,102 @@ def stream_corpus(ctx: Ctx, sc: Scratch) -> None:
                 ctx.fail(SIG_MAXAGE, {"mode": "maxage", "value": v, "from": how},
                          f"--intersphinx-cache-max-age {v!r} from {how}: {short(r)}" + (f", value {r['options'].intersphinx_cache_max_age!r}" if r["kind"] == "ok" else "")
                          + (" (expected: option error, exit 2)" if not good else " (expected: accepted unchanged)"))
+    # ---- one item per line with a str.splitlines() boundary character in the MIDDLE of an item (seeded C20-r3-3): only the
+    #      newline separates items.  (A raw CR cannot be carried by a file: text-mode reading turns it into a newline; it is
+    #      in the value-level stream, which feeds IniConfigParser a StringIO.)
+    table = {o["flags"][0]: o for o in live_table()}
+    for long, mk in (("--html-subject", lambda b: f"pkg{b}mod"), ("--intersphinx", lambda b: f"https://h/a{b}b/objects.inv"),
+                     ("--privacy", lambda b: f"PUBLIC:a{b}b"), ("--template-dir", lambda b: f"sub/t{b}d"), ("--add-package", lambda b: f"sub/p{b}k")):
+        o = table[long]
+        for b in LINE_BOUNDARIES:
+            items = [mk(""), mk(b), mk(b) + "x"]
+            for fname, header in (("setup.cfg", "[tool:pydoctor]"), ("pydoctor.ini", "[pydoctor]")):
+                text = f"{header}\n{o['key']} =\n" + "".join(f"    {i}\n" for i in items)
+                sc.clear()
+                sc.write(fname, text)
+                rf = sc.run([])
+                sc.clear()
+                cli = [f"{long}={i}" for i in items]
+                rc = sc.run(cli)
+                ctx.case(f"corpus boundary {long} U+{ord(b):04X} {fname}", True, None)
+                ctx.count("corpus:line-boundary-in-item")
+                if outcome_key(rf) != outcome_key(rc):
+                    ctx.fail("append-order:ini", {"mode": "eq", "file": fname, "text": text, "cli": cli, "option": long},
+                             f"{long}: {fname} {text!r} -> {short(rf)}{diff_opts(rf, rc)}; command line {cli} -> {short(rc)}")
+    sc.clear()
+
+    # ---- the reviewer's list: findings (open, with signature) and pinned behaviours
+    def read(fname: str, text: str, args: Sequence[str] = ()) -> Dict[str, Any]:
+        sc.clear()
+        sc.write(fname, text)
+        r = sc.run(list(args))
+        sc.clear()
+        return r
+
+    def pin(name: str, got: Any, want: Any, why: str) -> None:
+        ctx.case("corpus pin " + name, True, None)
+        ctx.count("corpus:pinned-behaviour")
+        if got != want:
+            ctx.fail("pinned-behaviour-changed:" + name, {"pin": name}, f"{name}: now {got!r}, pinned {want!r} ({why})")
+
+    def field(r: Dict[str, Any], attr: str) -> Any:
+        return getattr(r["options"], attr) if r["kind"] == "ok" else short(r)[:60]
+
+    # (1) clustered short count flags are not seen as "on the command line": the file's count is added
+    ini1 = "[pydoctor]\nverbose = 1\n"
+    pin("file verbose=1 + `-v -v`", field(read("pydoctor.ini", ini1, ["-v", "-v"]), "verbosity"), 2, "exact option strings replace the file's count")
+    for cli in (["-vv"], ["-vq"]):
+        rb, rc = read("pydoctor.ini", ini1, cli), sc.run(cli)
+        ctx.case("corpus cluster " + " ".join(cli), True, None)
+        if outcome_key(rb) != outcome_key(rc):
+            ctx.fail(SIG_CLUSTER, {"mode": "override", "file": "pydoctor.ini", "text": ini1, "cli": cli},
+                     f"pydoctor.ini {ini1!r} + {cli}: verbosity {field(rb, 'verbosity')}, the command line alone gives {field(rc, 'verbosity')} "
+                     f"(with the flags written apart the file's count is dropped)")
+    # (2) the value `--`
+    for fname, header, fmt in FILES:
+        r = read(fname, f"{header}\nproject-name = {toml_basic('--') if fmt == 'toml' else py_quote('1s', '--')}\n")
+        ctx.case("corpus double dash " + fname, True, None)
+        if field(r, "projectname") != "--":
+            ctx.fail(SIG_DDASH, {"file": fname, "form": "1s", "s": "--"}, f"{fname}: project-name = '--' read back as {field(r, 'projectname')!r} (argparse drops a lone '--' value; --project-name=-- does the same)")
+    # (3) raw newlines inside a triple-quoted INI value are continuation lines first
+    pin("triple-quoted INI value over several lines", field(read("setup.cfg", "[tool:pydoctor]\nproject-name = '''a\n    #b\n      c'''\n"), "projectname"), "a\nc",
+        "configparser drops comment lines and the indentation of continuation lines before pydoctor sees the value")
+    # (4) a value a count/flag action cannot take
+    for fname, text in (("setup.cfg", "[tool:pydoctor]\nverbose = x\n"), ("setup.cfg", "[tool:pydoctor]\nverbose = 2.0\n"), ("pyproject.toml", "[tool.pydoctor]\nverbose = [1]\n"),
+                        ("pyproject.toml", "[tool.pydoctor]\nwarnings-as-errors = [true]\n")):
+        r = read(fname, text)
+        ctx.case("corpus bad count/flag value " + text, True, None)
+        if r["kind"] == "raise":
+            ctx.fail(SIG_BADCOUNT, {"mode": "badvalue", "file": fname, "text": text}, f"{fname} {text!r}: Options.from_args raised {r['cls']}: {r['msg']} instead of an option error")
+        elif r["kind"] != "exit":
+            ctx.fail("bad-count-or-flag-value:accepted", {"mode": "badvalue", "file": fname, "text": text}, f"{fname} {text!r}: {short(r)}")
+    pin("verbose = -1", field(read("setup.cfg", "[tool:pydoctor]\nverbose = -1\n"), "verbosity"), 0, "a negative count repeats the flag zero times; `quiet` is the way down")
+    # (5) key case
+    ra, rb = read("setup.cfg", "[tool:pydoctor]\nProject-Name = x\n"), read("pyproject.toml", "[tool.pydoctor]\nProject-Name = \"x\"\n")
+    ctx.case("corpus key case", True, None)
+    if (field(ra, "projectname"), ra["warnings"]) != (field(rb, "projectname"), rb["warnings"]):
+        ctx.fail(SIG_KEYCASE, {"mode": "keycase", "key": "Project-Name"},
+                 f"key 'Project-Name': setup.cfg -> project-name={field(ra, 'projectname')!r} warnings={ra['warnings']}; pyproject.toml -> {field(rb, 'projectname')!r} warnings={rb['warnings']}")
+    # (6) `config = …` inside a config file (the config-file option is outside the property, DESIGN 4.5)
+    r = read("setup.cfg", "[tool:pydoctor]\nconfig = other.ini\nproject-name = x\n")
+    pin("config = other.ini inside a file", (field(r, "projectname"), r["warnings"]), ("x", []), "known key, ignored: the files are opened before the items are read")
+    # (7) help / version in a file (options that terminate the process are outside the property)
+    for k in ("help", "version"):
+        r = read("setup.cfg", f"[tool:pydoctor]\n{k} = false\n")
+        pin(f"{k} = false in a file", (r["kind"], r.get("code")), ("exit", 2), "argparse: ignored explicit argument")
+    # (8) a TOML boolean for a string option
+    ra, rb = read("pyproject.toml", "[tool.pydoctor]\nproject-name = true\n"), read("setup.cfg", "[tool:pydoctor]\nproject-name = true\n")
+    ctx.case("corpus toml bool on string option", True, None)
+    if field(ra, "projectname") != field(rb, "projectname"):
+        ctx.fail(SIG_TOMLBOOL, {"mode": "tomlbool"}, f"project-name = true: pyproject.toml -> {field(ra, 'projectname')!r}, setup.cfg -> {field(rb, 'projectname')!r}")
+    # (9) [DEFAULT]
+    r = read("setup.cfg", "[DEFAULT]\nproject-name = leaked\nfoo = 1\n[tool:pydoctor]\nverbose = 1\n")
+    pin("[DEFAULT] entries reach the pydoctor section", (field(r, "projectname"), field(r, "verbosity"), r["warnings"]), ("leaked", 1, ["No such config option: 'foo'"]),
+        "configparser semantics, modelled by sectionItems")
+    # (10) a one-line quoted value written over two lines; (11) an unquoted value that starts with [ and ends with ]
+    for name, text in (("one-line quotes over two lines", "[tool:pydoctor]\nproject-name = 'a\n    b'\n"), ("unquoted [draft] x [v2]", "[tool:pydoctor]\nproject-name = [draft] x [v2]\n")):
+        r = read("setup.cfg", text)
+        pin(name, (r["kind"], r.get("code"), "unquote" in r.get("msg", "") or "Put quotes around" in r.get("msg", "")), ("exit", 2, True), "refused with a message that says what to write")
     # seeded shapes (seeded/C20*/meta.json "needs")
     shapes: List[Tuple[str, str, List[str], List[str], str]] = [
         # (file, text, args when the file is read, equivalent command line, signature when they differ)
@@ -1823,6 +1940,14 @@ def replay(ctx: Ctx, obj) -> int:
             print(f"command line {cli} alone: {short(rb)}")
             bad = 0 if outcome_key(ra) == outcome_key(rb) else 1
             print("oracle :", ("same effective configuration" if not bad else "effective configuration differs" + diff_opts(ra, rb)))
+        elif inp.get("mode") == "badvalue":
+            sc.clear()
+            sc.write(inp["file"], inp["text"])
+            r = sc.run([])
+            print(f"file   : {inp['file']}: {inp['text']!r}")
+            print(f"impl   : {short(r)}")
+            bad = int(r["kind"] == "raise")
+            print("oracle :", "an exception escapes Options.from_args (traceback)" if bad else "clean outcome (option error or accepted)")
         elif inp.get("mode") == "unknown":
             fname = inp["file"]
             sc.clear()
